@@ -1307,3 +1307,239 @@ Proof.
     splits; auto.
     intros C. unfold ll_match in Em. fold L in C. rewrite C in Em. cbn in Em. lia.
 Qed.
+
+(* the literal reading "a non-reject answer only after the term check" is false of the model
+   (and of the Rust): an append anchored below the commit index is answered without any
+   check, with index = commit index (case (1) above) *)
+Module C05Samples.
+  Import Samples RepInvSamples.
+  Definition stale : msg :=
+    msg_default <| m_type := MsgAppend |> <| m_from := 2 |> <| m_to := 1 |> <| m_term := 1 |>
+      <| m_index := 0 |> <| m_log_term := 5 |>.
+  Example stale_append_not_checked :
+    committed (nlog f3) = 1
+    /\ ll_term (abs (nlog f3)) 0 = SOk 0
+    /\ exists r' resp, handle_append_entries (rn_raft f3) stale = Ok r'
+         /\ r_msgs r' = r_msgs (rn_raft f3) ++ [resp]
+         /\ m_reject resp = false /\ m_index resp = 1 /\ r_log r' = r_log (rn_raft f3).
+  Proof.
+    split; [reflexivity|]. split; [reflexivity|]. eexists. eexists.
+    split; [vm_compute; reflexivity|]. repeat split.
+  Qed.
+End C05Samples.
+
+(* ================================================================== *)
+(* Part 5. C04: the commit rule                                         *)
+(* ================================================================== *)
+
+(* (4) the leader: maybe_commit moves the commit index exactly to the quorum index of the
+   matched indexes, only upwards, and only if the entry there has the leader's term *)
+Theorem maybe_commit_rule rw r r' :
+  Raft.maybe_commit r = Ok (r', true) -> LI rw r ->
+  let mci := fst (prs_maximal_committed_index (r_prs r)) in
+  committed (r_log r') = mci /\ committed (r_log r) < mci /\ mci <= last_index (r_log r)
+  /\ ll_term (abs (r_log r)) mci = SOk (r_term r)
+  /\ abs (r_log r') = abs (r_log r) /\ persisted (r_log r') = persisted (r_log r)
+  /\ applied (r_log r') = applied (r_log r).
+Proof.
+  intros H HI. cbv zeta. unfold Raft.maybe_commit in H.
+  set (mci := fst (prs_maximal_committed_index (r_prs r))) in *. inv_bind H. destruct x as [l' b].
+  assert (Hb : b = true).
+  { destruct b; [reflexivity|]. inversion H. }
+  subst b.
+  assert (Hl : r_log r' = l').
+  { destruct (get_pr r (r_id r)); inversion H; reflexivity. }
+  rewrite Hl. clear H Hl. unfold RaftLog.maybe_commit in Hx.
+  destruct (committed (r_log r) <? mci) eqn:E; [|discriminate]. apply N.ltb_lt in E.
+  rewrite (term_abs rw _ _ HI) in Hx. cbn [bind] in Hx.
+  destruct (term_ok_eq (ll_term (abs (r_log r)) mci) (r_term r)) eqn:Et; [|discriminate].
+  inv_bind Hx. inversion Hx; subst x. clear Hx. unfold commit_to in Hx0.
+  destruct (mci <=? committed (r_log r)) eqn:E2; [lia|].
+  destruct (last_index (r_log r) <? mci) eqn:E3; [discriminate|]. inversion Hx0; subst l'.
+  cbn [set_committed committed persisted applied]. splits; auto; try lia.
+  destruct (ll_term (abs (r_log r)) mci); cbn in Et; [f_equal; lia|discriminate].
+Qed.
+
+Theorem maybe_commit_false r r' : Raft.maybe_commit r = Ok (r', false) -> r' = r.
+Proof.
+  unfold Raft.maybe_commit. intros H. inv_bind H. destruct x as [l' b].
+  destruct b; [destruct (get_pr r (r_id r)); discriminate|]. inversion H; subst. clear H.
+  unfold RaftLog.maybe_commit in Hx.
+  destruct (_ <? _); [|inversion Hx; apply set_log_same].
+  inv_bind Hx. destruct (term_ok_eq _ _); [inv_bind Hx; discriminate|]. inversion Hx; apply set_log_same.
+Qed.
+
+(* the leader's own matched index *)
+Lemma pget_map (g : N * progress -> progress) m id :
+  pget (map (fun kp => (fst kp, g kp)) m) id = option_map (fun p => g (id, p)) (pget m id).
+Proof.
+  induction m as [|[k p] t IH]; cbn [map pget fst]; [reflexivity|].
+  destruct (k =? id) eqn:E; [apply N.eqb_eq in E; subst; reflexivity|exact IH].
+Qed.
+
+(* appending never counts: append_entry leaves the whole progress tracker alone *)
+Theorem append_entry_prs r es r' ok : append_entry r es = Ok (r', ok) -> r_prs r' = r_prs r.
+Proof.
+  unfold append_entry, maybe_increase_uncommitted_size. intros H.
+  destruct (r_max_uncommitted_size r =? u64_max).
+  - cbn [negb] in H. inv_bind H. inversion H; reflexivity.
+  - match type of H with context [if ?c then (_, true) else _] => destruct c end; cbn [negb] in H.
+    + inv_bind H. inversion H; reflexivity.
+    + inversion H; reflexivity.
+Qed.
+
+(* a term change (reset) restarts the own matched index from what is persisted *)
+Theorem reset_self_matched r t r' pr :
+  reset r t = Ok r' -> get_pr r (r_id r) = Some pr ->
+  exists pr', get_pr r' (r_id r') = Some pr' /\ matched pr' = persisted (r_log r)
+              /\ r_id r' = r_id r /\ r_log r' = r_log r.
+Proof.
+  unfold reset. intros H Hg.
+  set (r0 := if negb (r_term r =? t) then r <| r_term := t |> <| r_vote := INVALID_ID |> else r) in H.
+  assert (E0 : r_id r0 = r_id r /\ r_log r0 = r_log r /\ t_progress (r_prs r0) = t_progress (r_prs r))
+    by (subst r0; destruct (negb (r_term r =? t)); auto).
+  destruct E0 as (Ei & El & Ep). clearbody r0.
+  destruct (r_draws r0) as [|d ds]; [discriminate|]. inversion H; subst r'. clear H.
+  unfold get_pr in *. cbn. rewrite Ei, El, Ep.
+  rewrite (pget_map (fun kp => if fst kp =? r_id r then _ else _)). rewrite Hg. cbn [option_map fst].
+  rewrite N.eqb_refl. eexists. split; [reflexivity|]. cbn. auto.
+Qed.
+
+Lemma maybe_send_append_prs r to pr ae r' pr' b :
+  maybe_send_append r to pr ae = Ok (r', pr', b) -> r_prs r' = r_prs r /\ r_id r' = r_id r.
+Proof.
+  intros H. destruct (maybe_send_append_cases _ _ _ _ _ _ _ H) as [(_ & -> & _)|(_ & _ & C)]; [auto|].
+  destruct C as [(_ & s & _ & _ & -> & _)|[(_ & _ & t & ents & _ & _ & _ & -> & _)|
+                 (_ & _ & _ & t & ents & msgs' & _ & _ & _ & _ & ->)]]; auto.
+Qed.
+
+Lemma for_each_send_append_self ids self : forall r r',
+  for_each_peer ids self send_append_to r = Ok r' -> get_pr r' self = get_pr r self.
+Proof.
+  induction ids as [|id rest IH]; intros r r' H; cbn [for_each_peer] in H.
+  - inversion H; reflexivity.
+  - destruct (id =? self) eqn:E; [apply IH; exact H|].
+    inv_bind H. rewrite (IH _ _ H). unfold send_append_to in Hx.
+    destruct (get_pr r id); [|discriminate]. inv_bind Hx. destruct x0 as [[r1 pr1] b1]. inversion Hx; subst.
+    destruct (maybe_send_append_prs _ _ _ _ _ _ _ Hx0) as [Ep _].
+    unfold get_pr, put_pr. cbn. rewrite Ep. apply pget_pput_other. apply N.eqb_neq in E. congruence.
+Qed.
+
+Lemma bcast_append_self r r' : bcast_append r = Ok r' -> get_pr r' (r_id r) = get_pr r (r_id r).
+Proof. unfold bcast_append. apply for_each_send_append_self. Qed.
+
+Lemma log_maybe_commit_persisted l i t l' b :
+  RaftLog.maybe_commit l i t = Ok (l', b) -> persisted l' = persisted l.
+Proof.
+  unfold RaftLog.maybe_commit. intros H. destruct (_ <? _); [|inversion H; reflexivity].
+  inv_bind H. destruct (term_ok_eq _ _); [|inversion H; reflexivity].
+  inv_bind H. inversion H; subst. unfold commit_to in Hx0.
+  destruct (_ <=? _); [inversion Hx0; reflexivity|]. destruct (_ <? _); [discriminate|].
+  inversion Hx0; reflexivity.
+Qed.
+
+Lemma maybe_commit_self r r' b pr :
+  Raft.maybe_commit r = Ok (r', b) -> get_pr r (r_id r) = Some pr ->
+  exists pr', get_pr r' (r_id r) = Some pr' /\ matched pr' = matched pr /\ r_id r' = r_id r
+              /\ persisted (r_log r') = persisted (r_log r).
+Proof.
+  unfold Raft.maybe_commit. intros H Hg. inv_bind H. destruct x as [l3 b3].
+  apply log_maybe_commit_persisted in Hx. rewrite Hg in H.
+  destruct b3; injection H as E _; rewrite <- E.
+  - eexists. split; [unfold get_pr, put_pr; cbn; apply pget_pput_same|].
+    split; [unfold update_committed; destruct (_ <? _); reflexivity|]. split; [reflexivity|exact Hx].
+  - exists pr. split; [exact Hg|]. split; [reflexivity|]. split; [reflexivity|exact Hx].
+Qed.
+
+(* ... and afterwards it is raised only by on_persist_entries, to an index whose persistence
+   the application reported and the storage confirms (term check of maybe_persist) *)
+Theorem on_persist_entries_self_matched rw r i t r' pr :
+  on_persist_entries r i t = Ok r' -> LI rw r -> get_pr r (r_id r) = Some pr ->
+  exists pr', get_pr r' (r_id r) = Some pr' /\
+    (matched pr' = matched pr
+     \/ (matched pr < i /\ matched pr' = i /\ is_leader r = true
+         /\ persisted (r_log r) < i /\ persisted (r_log r') = i
+         /\ storage_term (store (r_log r)) i = Ok (SOk t))).
+Proof.
+  unfold on_persist_entries. intros H HI Hg. inv_bind H. destruct x as [l' upd].
+  destruct (maybe_persist_ok rw _ i t HI) as (l2 & b2 & Hm & _ & _ & _ & _ & _ & _ & Hup).
+  rewrite Hx in Hm. inversion Hm; subst l2 b2. clear Hm.
+  destruct upd; cbn [andb] in H.
+  2:{ inversion H; subst. exists pr. split; [exact Hg|left; reflexivity]. }
+  destruct (Hup eq_refl) as (P1 & P2 & _ & _ & P5).
+  change (is_leader (r <| r_log := l' |>)) with (is_leader r) in H.
+  destruct (is_leader r) eqn:El.
+  2:{ inversion H; subst. exists pr. split; [exact Hg|left; reflexivity]. }
+  change (get_pr (r <| r_log := l' |>) (r_id (r <| r_log := l' |>))) with (get_pr r (r_id r)) in H.
+  rewrite Hg in H. destruct (maybe_update pr i) as [pr1 u] eqn:Eu.
+  assert (Hm1 : matched pr1 = (if matched pr <? i then i else matched pr) /\ u = (matched pr <? i)).
+  { unfold maybe_update in Eu. injection Eu as E1 E2. rewrite <- E1, <- E2. split; [|reflexivity].
+    destruct (matched pr <? i); cbn; match goal with |- matched (if ?c then _ else _) = _ => destruct c end; reflexivity. }
+  destruct Hm1 as [Hm1 Hu].
+  set (r1 := put_pr (r <| r_log := l' |>) (r_id (r <| r_log := l' |>)) pr1) in *.
+  assert (Hg1 : get_pr r1 (r_id r) = Some pr1) by (unfold r1, get_pr, put_pr; cbn; apply pget_pput_same).
+  assert (Hfin : forall pr', matched pr' = matched pr1 ->
+            matched pr' = matched pr
+            \/ (matched pr < i /\ matched pr' = i /\ true = true /\ persisted (r_log r) < i
+                /\ persisted l' = i /\ storage_term (store (r_log r)) i = Ok (SOk t))).
+  { intros pr' E. rewrite E, Hm1. destruct (matched pr <? i) eqn:Elt; [right|left; reflexivity].
+    apply N.ltb_lt in Elt. splits; auto. }
+  destruct u.
+  2:{ inversion H; subst. exists pr1. split; [exact Hg1|]. cbn [r_log]. apply Hfin. reflexivity. }
+  inv_bind H. destruct x as [r2 c].
+  destruct (maybe_commit_self r1 r2 c pr1 Hx0 Hg1) as (pr2 & G2 & M2 & I2 & Hp2).
+  change (r_id r1) with (r_id r) in G2, I2. change (persisted (r_log r1)) with (persisted l') in Hp2.
+  match type of H with (if ?c then _ else _) = _ => destruct c end.
+  - pose proof (bcast_append_self _ _ H) as Hs. rewrite I2 in Hs.
+    exists pr2. split; [rewrite Hs; exact G2|].
+    rewrite (bcast_append_log _ _ H), Hp2. apply Hfin. exact M2.
+  - inversion H; subst. exists pr2. split; [exact G2|]. rewrite Hp2. apply Hfin. exact M2.
+Qed.
+
+(* (5) the follower: a heartbeat commits exactly up to m_commit and never beyond the log *)
+Theorem handle_heartbeat_commit rw r m r' :
+  handle_heartbeat r m = Ok r' -> LI rw r ->
+  committed (r_log r') = N.max (committed (r_log r)) (m_commit m)
+  /\ committed (r_log r') <= last_index (r_log r')
+  /\ abs (r_log r') = abs (r_log r).
+Proof.
+  unfold handle_heartbeat. intros H HI. inv_bind H.
+  destruct (commit_to_pres rw _ _ _ Hx HI) as [A S].
+  assert (Ec : committed x = N.max (committed (r_log r)) (m_commit m)).
+  { unfold commit_to in Hx. destruct (m_commit m <=? committed (r_log r)) eqn:E; [inversion Hx; lia|].
+    destruct (last_index (r_log r) <? m_commit m); [discriminate|]. inversion Hx; subst. cbn. lia. }
+  assert (El : r_log r' = x).
+  { match type of H with (if ?c then _ else _) = _ => destruct c end.
+    - apply send_request_snapshot_log in H. exact H.
+    - apply send_log in H. exact H. }
+  rewrite El. splits; [exact Ec|eapply RepInv_committed_le_last; exact A|apply same_su_abs; exact S].
+Qed.
+
+Lemma send_panic_sites r m s : send r m = Panic s -> s = site_send_vote_term0 \/ s = site_send_term_set.
+Proof.
+  unfold send. intros H. apply bind_panic in H. destruct H as [H|(x & _ & H)]; [|discriminate].
+  destruct (is_vote_type _).
+  - destruct (m_term _ =? 0); [inversion H; auto|discriminate].
+  - destruct (negb _); [inversion H; auto|]. destruct (_ && _); discriminate.
+Qed.
+
+(* the range check of commit_to is the panic site 1412: it fires exactly when the leader's
+   commit index is beyond both the follower's commit index and its last index *)
+Theorem handle_heartbeat_panics_1412 rw r m :
+  LI rw r ->
+  (handle_heartbeat r m = Panic site_l_commit_range
+   <-> committed (r_log r) < m_commit m /\ last_index (r_log r) < m_commit m).
+Proof.
+  intros HI. unfold handle_heartbeat. rewrite (abs_last rw _ HI).
+  rewrite <- (commit_to_panics_iff rw _ (m_commit m) HI).
+  destruct (commit_to (r_log r) (m_commit m)) as [l'|s] eqn:E; cbn [bind].
+  - split; [|discriminate]. intros H. exfalso.
+    destruct (commit_to_pres rw _ _ _ E HI) as [A _].
+    assert (Hsend : forall ra mm, send ra mm = Panic site_l_commit_range -> False).
+    { intros ra mm Hs. apply send_panic_sites in Hs. destruct Hs as [Hs|Hs]; vm_compute in Hs; discriminate. }
+    match type of H with (if ?c then _ else _) = _ => destruct c end; [|exact (Hsend _ _ H)].
+    unfold send_request_snapshot in H. cbn [r_log] in H.
+    match type of H with context [RaftLog.term ?la ?ix] => rewrite (term_abs rw la ix A) in H end.
+    cbn [bind] in H. destruct (ll_term _ _); [exact (Hsend _ _ H)|vm_compute in H; discriminate].
+  - split; intros H; inversion H; reflexivity.
+Qed.
